@@ -38,6 +38,8 @@ Act(e) ==
     [] e.op = "save" -> Save(e.text)
     [] e.op = "reopen" -> Reopen(e.detect)
     [] e.op = "tossc" -> ToSSC(e.tmpl, e.ctmpl, e.res)
+    [] e.op = "readnotes" -> ReadNotes(e.j, e.res)
+    [] e.op = "readtiming" -> ReadTiming(e.name, e.res)
 
 (* a save of an object outside the serializer's domain (escaping gaps, chart without notes) is skipped, not judged *)
 OutOfDomain(e) == e.op = "save" /\ ~Saveable(obj)
